@@ -12,6 +12,7 @@ CLAIMS = {
  'C11': ('full', "Lean 4 proof (21 theorems) for every TotalOrderCmp comparator and every script: search-tree invariant, set semantics of insert/find/remove, exact length, ascending in-order, pre/post/in-order of one tree, iterator with removal visits each element once ascending, destructor receives exactly the removed element once. Tie A: ptrcmp regenerated from bst.c and proved a total order on all 2^64 x 2^64 address pairs. Tie B: all K! insertion orders (K<=5 quick, 7 thorough) with removals, far-apart pointers, random scripts.", '§7 C11'),
  'C05': ('full', "Lean 4 proof (16 theorems) for every hash function (home-slot function), every power-of-two size and flag combination: probing invariant W1-W4 holds in every reachable state; under it get/contains/len/put/remove/rehash/iterate/iterator/clear act exactly like a dictionary with exact destructor and key alloc/free events; key ledger over whole histories. Tie A: default size, probe length, load rule, back-shift decision and string hash regenerated from map.c, side conditions closed in C05_fragments_good. Tie B: map_harness vs model incl. iteration order, adversarial key sets (shared home slot, wrapping clusters, growth).", '§7 C05'),
 }
+CLAIMS['C06'] = ('partial', "Lean 4 proof (11 theorems, none _partial) about a labelled transition system with one program counter per pthread primitive / shared access of thpool.c (after the three fix commits), for every interleaving of any number of submitters, workers (eager, LAZY, DETACHED) and the freeing thread incl. spurious wake-ups and pthread_create failures: at-most-once execution with the own argument, bounded parallelism, mutual exclusion, free(wait_all)/free(!wait_all) return conditions, discarded tasks never run, no touch after free, no deadlock. Partial: the tie to the C code is trace acceptance on sampled schedules under a deterministic scheduler shim (2008 quick / 28008 thorough, every plain access of the pool object is a scheduling point) plus TSan real-thread runs; liveness beyond deadlock freedom is not proved; POSIX primitives are encoded, not verified.", '§7 C06')
 PENDING = 'check not built yet in this round; not claimed until its theorems and correspondence exist (DESIGN.md §7)'
 
 
